@@ -174,3 +174,21 @@ void h_create(void)
 	}
 	REACHED();
 }
+
+/* init -> a few adds -> free: an empty queue has no minimum; timerqueue_free releases every remaining entry, the heap and the
+ * queue itself (--memory-leak-check); timerqueue_free(NULL) is a no-op */
+#ifndef NLIFE
+#define NLIFE 2
+#endif
+void h_lifecycle(void)
+{
+	struct timerqueue * q = timerqueue_init();
+	ASSUME(q != NULL);
+	CHECK(timerqueue_getmin(q) == NULL, "a fresh queue is empty");
+	struct timeval t0 = ndtv(); CHECK(timerqueue_getptr(q, &t0) == NULL, "nothing is ever due in an empty queue");
+	for (int i = 0; i < NLIFE; i++) { struct timeval t = ndtv(); void * r = timerqueue_add(q, &t, (void *)(uintptr_t)(0x3000 + i)); ASSUME(r != NULL); }
+	if (NLIFE > 0) CHECK(timerqueue_getmin(q) != NULL, "entries are there");
+	timerqueue_free(NULL);
+	timerqueue_free(q);
+	REACHED();
+}
